@@ -54,7 +54,9 @@ def run(tier, seed, replay_path=None):
     ck.assumptions = ['the buffer holds exactly the request frame', 'library models of DESIGN 3.3', 'key identity: the request key names map slot 0']
     res = ck.explore(harness(st))
     names = {v: k for k, v in E.enums['BinaryRequest']}
-    small = [z3.ULE(total, 128), z3.ULE(st.cas_id, 1000), z3.ULE(st.now, 100000), H.keylen == 4]
+    from mirse.models.bytesm import vlen
+    small = [z3.ULE(total, 128), z3.ULE(st.cas_id, 1000), z3.ULE(st.now, 100000), H.keylen == 4] + \
+            [z3.ULE(vlen(v), 1 << 17) for v in st.val] + [z3.ULE(vlen(v), 64) for v in st.val]
     nval = 0
     for p in res:
         if p.status != 'ok':
